@@ -425,6 +425,10 @@ func c52(sum *lib.Summary) {
 		sum.Count("corpus")
 		runBoth("corpus:"+c.Name, c.Src, c.Coq, true, nil)
 	}
+	for i, gp := range swapGrid() {
+		sum.Count("grid")
+		runBoth(fmt.Sprintf("grid:swap-assign:%d", i), gp.Src(), gp.Coq(), false, nil)
+	}
 	for i := 0; i < nprog; i++ {
 		if i%40 == 39 {
 			h = lib.NewHost()
